@@ -64,6 +64,8 @@ const double PI = 3.14159265358979323846;
 // effect.  "F4a" = F4 with the two-point LOR representation only.
 std::string g_lift_only; // set by check() from the case
 
+// C12-A1 (ProjDataInfoCylindricalArcCorr::get_bin for data without segment 0) is repaired in /repo: not excluded any more
+static const bool A1_EXCLUDED = false;
 bool
 exclusions_on(const char* finding)
 {
@@ -202,9 +204,14 @@ accept_roundtrip(const ProjDataInfoCylindrical& p, const Bin& b, const Bin& nb, 
       const bool view_end = b.view_num() == p.get_min_view_num() || b.view_num() == p.get_max_view_num();
       const bool tang_edge = ties && (t - 1 < tmin || t + 1 > tmax || (view_end && (-t - 1 < tmin || -t + 1 > tmax)));
       const bool axial_ok = !exact && compressed(p, seg) && at_edge;
-      stats().count(cat("roundtrip reports a miss: ", axial_ok ? "compressed bin at axial edge" : (tang_edge ? "tie at tangential edge" : "OTHER"), " (",
-                        which, ")"));
-      VF_CHECK(axial_ok || (!exact && tang_edge), "round trip (", which, ") of ", bstr(b),
+      // (domain audit: segment ranges that are not symmetric, reduce_segment_range(a, b) with a != -b.)  The same situation in the
+      // segment index: the statement's "stepping between the last and the first view reverses the sign of the segment" needs segment -seg,
+      // and for a tie at the first / last view the permitted neighbour is a bin of segment -seg, which these data do not have.
+      const bool seg_edge = ties && view_end && (-seg < p.get_min_segment_num() || -seg > p.get_max_segment_num());
+      stats().count(cat("roundtrip reports a miss: ",
+                        axial_ok ? "compressed bin at axial edge" : (tang_edge ? "tie at tangential edge" : (seg_edge ? "tie at the view end, no opposite segment" : "OTHER")),
+                        " (", which, ")"));
+      VF_CHECK(axial_ok || (!exact && (tang_edge || seg_edge)), "round trip (", which, ") of ", bstr(b),
                " reports that the LOR misses the scanner, but the bin is ", compressed(p, seg) ? "" : "not ", "axially compressed and ",
                at_edge ? "" : "not ", "within ", margin, " positions of an axial end");
       return Result::pass();
@@ -823,8 +830,26 @@ check_blocks(const ProjDataInfoGenericNoArcCorr& p, const json& c)
 
 // ---- clause (4): arc correction --------------------------------------------------------------------------------
 Result
-check_arc_correction(const shared_ptr<ProjDataInfo>& noarc_sptr, const json& a)
+check_arc_correction(const shared_ptr<ProjDataInfo>& noarc_in_sptr, const json& a)
 {
+  // asymmetric tangential range of the input: a copy of the sampling with its own cuts (the object under test is not changed)
+  shared_ptr<ProjDataInfo> noarc_sptr = noarc_in_sptr;
+  {
+    const int n = noarc_in_sptr->get_num_tangential_poss();
+    const int lo = n > 1 ? a.value("tang_lo_cut", 0) % n : 0;
+    const int hi = n - lo > 1 ? a.value("tang_hi_cut", 0) % (n - lo) : 0;
+    if (lo != 0 || hi != 0)
+      {
+        noarc_sptr = noarc_in_sptr->create_shared_clone();
+        noarc_sptr->set_min_tangential_pos_num(noarc_in_sptr->get_min_tangential_pos_num() + lo);
+        noarc_sptr->set_max_tangential_pos_num(noarc_in_sptr->get_max_tangential_pos_num() - hi);
+      }
+    if (noarc_sptr->get_min_tangential_pos_num() != -noarc_sptr->get_max_tangential_pos_num()
+        && noarc_sptr->get_min_tangential_pos_num() != -noarc_sptr->get_max_tangential_pos_num() - 1)
+      stats().cls(noarc_sptr->get_min_tangential_pos_num() > 0 || noarc_sptr->get_max_tangential_pos_num() < 0
+                      ? "arc-correction input: asymmetric tangential range not containing 0"
+                      : "arc-correction input: asymmetric tangential range");
+  }
   const ProjDataInfoCylindricalNoArcCorr& pn = dynamic_cast<const ProjDataInfoCylindricalNoArcCorr&>(*noarc_sptr);
   const Scanner& sc = *pn.get_scanner_ptr();
   const CylGeo g(sc);
@@ -889,19 +914,35 @@ check_arc_correction(const shared_ptr<ProjDataInfo>& noarc_sptr, const json& a)
   SplitMix rng(a.value("seed", uint64_t(1)));
   const int nviews = pn.get_num_views();
 
-  // two sinograms of segment 0: constant rows (a different constant per view), random non-negative rows
-  Sinogram<float> in_const = pn.get_empty_sinogram(0, 0, false, 0);
-  Sinogram<float> in_rand = pn.get_empty_sinogram(0, 0, false, 0);
+  // two sinograms: constant rows (a different constant per view), random rows (non-negative, or signed when a["signed"])
+  // of segment 0 / axial position 0, of the last axial position of the last segment, or of the first of the first segment
+  const bool signed_rows = a.value("signed", false);
+  const int sino_sel = a.value("sino_sel", 0);
+  const bool has_seg0 = pn.get_min_segment_num() <= 0 && pn.get_max_segment_num() >= 0;
+  const int sino_seg = sino_sel == 1 ? pn.get_max_segment_num() : ((sino_sel == 2 || !has_seg0) ? pn.get_min_segment_num() : 0);
+  const int sino_ax = sino_sel == 1 ? pn.get_max_axial_pos_num(sino_seg) : pn.get_min_axial_pos_num(sino_seg);
+  if (signed_rows)
+    stats().cls("arc-correction rows: signed values, constants 0 and < 0");
+  if (sino_seg != 0 || sino_ax != 0)
+    stats().cls("arc-correction sinogram: not (segment 0, axial position 0)");
+  Sinogram<float> in_const = pn.get_empty_sinogram(sino_ax, sino_seg, false, 0);
+  Sinogram<float> in_rand = pn.get_empty_sinogram(sino_ax, sino_seg, false, 0);
   std::vector<double> consts(nviews);
   for (int v = 0; v < nviews; ++v)
     {
       consts[v] = v == 0 ? 1. : rng.real(0.01, 1000.);
+      if (signed_rows && v % 3 == 1)
+        consts[v] = 0.;
+      if (signed_rows && v % 3 == 2)
+        consts[v] = -consts[v];
       const int mode = int(rng.range(0, 3)); // 0 dense, 1 sparse, 2 edge heavy, 3 single spike
       const int spike = int(rng.range(imin, imax));
       for (int j = imin; j <= imax; ++j)
         {
           in_const[v][j] = float(consts[v]);
           double val = rng.real(0., 10.);
+          if (signed_rows && rng.range(0, 1) == 1)
+            val = -val;
           if (mode == 1 && rng.range(0, 3) != 0)
             val = 0;
           if (mode == 2)
@@ -914,6 +955,8 @@ check_arc_correction(const shared_ptr<ProjDataInfo>& noarc_sptr, const json& a)
   const Sinogram<float> out_const = arc.do_arc_correction(in_const);
   const Sinogram<float> out_rand = arc.do_arc_correction(in_rand);
   VF_CHECK(out_const.get_min_tangential_pos_num() == omin && out_const.get_max_tangential_pos_num() == omax, "arc-corrected sinogram has the wrong range");
+  VF_CHECK(out_rand.get_segment_num() == sino_seg && out_rand.get_axial_pos_num() == sino_ax, "arc-corrected sinogram of segment ", sino_seg, " axial position ",
+           sino_ax, " is labelled segment ", out_rand.get_segment_num(), " axial position ", out_rand.get_axial_pos_num());
   long covered = 0;
   for (int v = 0; v < nviews; ++v)
     {
@@ -923,10 +966,16 @@ check_arc_correction(const shared_ptr<ProjDataInfo>& noarc_sptr, const json& a)
           const bool fully = out_edge(t) >= in_lo + edge_tol && out_edge(t + 1) <= in_hi - edge_tol;
           const bool outside = out_edge(t + 1) <= in_lo - edge_tol || out_edge(t) >= in_hi + edge_tol;
           const double o = out_const[v][t];
-          if (fully)
+          if (consts[v] == 0.)
+            { // a row of zeros (signed rows only): every output bin is exactly 0
+              VF_CHECK(o == 0., "arc correction of a row of zeros gives ", o, " at output bin ", t, " (view ", v, ")");
+              if (fully)
+                ++covered;
+            }
+          else if (fully)
             {
               ++covered;
-              const double rel = std::fabs(o - consts[v]) / consts[v];
+              const double rel = std::fabs(o - consts[v]) / std::fabs(consts[v]);
               VF_CHECK(rel <= tol_uniform, "arc correction of the constant row ", consts[v], " gives ", o, " at fully covered output bin ", t, " (view ", v,
                        ", rel. error ", rel, ")");
               stats().maxi("(4) uniform row: max rel error on covered bins", rel);
@@ -935,7 +984,7 @@ check_arc_correction(const shared_ptr<ProjDataInfo>& noarc_sptr, const json& a)
           else if (outside)
             VF_CHECK(o == 0., "arc correction gives ", o, " at output bin ", t, " outside the input range");
           else
-            VF_CHECK(o >= 0. && o <= consts[v] * (1 + tol_uniform), "arc correction of the constant row ", consts[v], " gives ", o, " at partially covered output bin ", t);
+            VF_CHECK((consts[v] > 0 ? o >= 0. : o <= 0.) && std::fabs(o) <= std::fabs(consts[v]) * (1 + tol_uniform), "arc correction of the constant row ", consts[v], " gives ", o, " at partially covered output bin ", t);
         }
       // integral over s preserved over the covered range
       for (int which = 0; which < 2; ++which)
@@ -950,8 +999,8 @@ check_arc_correction(const shared_ptr<ProjDataInfo>& noarc_sptr, const json& a)
               const double lo = std::max(in_edge(j), out_lo), hi = std::min(in_edge(j + 1), out_hi);
               if (hi > lo)
                 sum_in += double(in[v][j]) * (hi - lo);
-              sum_in_vals += double(in[v][j]);
-              total += double(in[v][j]) * (in_edge(j + 1) - in_edge(j));
+              sum_in_vals += std::fabs(double(in[v][j])); // (magnitudes: the rows may be signed)
+              total += std::fabs(double(in[v][j])) * (in_edge(j + 1) - in_edge(j));
             }
           // edges inside STIR are float: each input value may gain/lose edge_tol at the two ends of the covered range
           const double tolI = 2 * eps * sum_in_vals + (edge_rel + 1e-5) * total + 2 * edge_tol * (std::fabs(double(in[v][imin])) + std::fabs(double(in[v][imax])) + 10.);
@@ -966,7 +1015,7 @@ check_arc_correction(const shared_ptr<ProjDataInfo>& noarc_sptr, const json& a)
     }
   // the viewgram interface must do the same per row
   {
-    Viewgram<float> vin = pn.get_empty_viewgram(0, 0, false, 0);
+    Viewgram<float> vin = pn.get_empty_viewgram(0, sino_seg, false, 0);
     for (int ax = vin.get_min_axial_pos_num(); ax <= vin.get_max_axial_pos_num(); ++ax)
       for (int j = imin; j <= imax; ++j)
         vin[ax][j] = in_rand[ax % nviews][j];
@@ -1004,6 +1053,21 @@ check(const json& c)
   if (c.contains("arc_bin_size"))
     if (auto p = dynamic_cast<ProjDataInfoCylindricalArcCorr*>(pdi.get()))
       p->set_tangential_sampling(c["arc_bin_size"].get<float>());
+  // ---- the ring differences of each segment: the harness's own statement from (span, max ring difference, trim) (c12_history.h (v)),
+  // so that the own Michelogram of check_contributing_ring_pairs and the obliqueness clauses do not take the segment's range of ring
+  // differences from the code under test; objects reached through a history must equal this fresh twin
+  VF_TRY(vh::check_own_segments(*pdi, c["pdi"]));
+  VF_TRY(vh::check_own_sampling(*pdi, *sc, c["pdi"]));
+  if (pdi->get_min_segment_num() > 0 || pdi->get_max_segment_num() < 0)
+    stats().cls("segment range without segment 0");
+  else if (pdi->get_min_segment_num() != -pdi->get_max_segment_num())
+    stats().cls("segment range not symmetric");
+  if (c["scanner"]["type"].get<int>() < 0)
+    {
+      const int nr = sc->get_num_rings();
+      if (nr == 5 || nr == 7 || nr == 10 || nr == 11)
+        stats().cls("5, 7, 10 or 11 rings");
+    }
   // ---- object history: the object under test is derived from another, used object; pdi (constructed directly) is its fresh twin ----
   // (the history works on its OWN Scanner object: the fresh twin shares nothing with the objects of the history)
   const bool with_history = c.contains("hist") && c["hist"].is_object();
@@ -1121,6 +1185,16 @@ gen_arc(Src& s, int ntang_in)
   a["ntang"] = int(s.range(1, std::max(2, 2 * ntang_in)));
   a["bin_mode"] = s.chance(1, 4) ? 1 : 0;
   a["bin_rel"] = s.pick(std::vector<double>{ 1., 0.5, 2., 0.3, 3., 1.37, 0.71 });
+  // (domain audit) sub-domains the rows of clause (4) never had: an input with an ASYMMETRIC tangential range (set_min/max_tangential_pos_num
+  // are public; cuts are interpreted modulo the number of positions, at least one stays), signed rows and constant rows with the constants 0
+  // and < 0 (arc correction is linear interpolation: nothing documents a sign restriction), a sinogram other than (segment 0, axial position 0)
+  if (s.chance(1, 3))
+    {
+      a["tang_lo_cut"] = int(s.chance(1, 3) ? 0 : s.range(1, 40));
+      a["tang_hi_cut"] = int(s.chance(1, 3) ? 0 : s.range(1, 40));
+    }
+  a["signed"] = s.chance(1, 3);
+  a["sino_sel"] = int(s.range(0, 2));
   return a;
 }
 
@@ -1160,6 +1234,22 @@ gen(Src& s, int size)
   so.allow_blocks = true;
   so.allow_predefined = false;
   c["scanner"] = vg::gen_scanner(s, so);
+  // (domain audit) vg::gen_scanner builds the number of rings as a product of small block / bucket counts (1..4 x 1..2 x 1..3): 5, 7, 10
+  // and 11 rings were never generated.  One block of that many crystals, one block per bucket.
+  if (s.chance(1, 8))
+    {
+      std::vector<int> rs;
+      for (int r : { 5, 7, 10, 11 })
+        if (r <= so.max_rings)
+          rs.push_back(r);
+      if (!rs.empty())
+        {
+          const int r = s.pick(rs);
+          c["scanner"]["rings"] = r;
+          c["scanner"]["ax_cryst_per_block"] = r;
+          c["scanner"]["ax_blocks_per_bucket"] = 1;
+        }
+    }
   shared_ptr<Scanner> sc = vg::make_scanner(c["scanner"]);
   vg::PdiOpts po;
   po.allow_arccorr = true;
@@ -1172,6 +1262,35 @@ gen(Src& s, int size)
       // (ProjDataInfoCylindrical.cxx:341), "currently restricted to span=1" (ProjDataInfoGeneric.inl)
       c["pdi"]["span"] = 1;
     }
+  // (domain audit) segment ranges that are not symmetric or do not contain segment 0 (ProjDataInfo::reduce_segment_range accepts any
+  // sub-range: its only preconditions are the assertions min >= get_min_segment_num(), max <= get_max_segment_num()); vg::gen_pdi without
+  // allow_asym_segments only produces -k..k.  Chosen inside the harness's own segment table so that vg::make_pdi's clamping cannot empty it.
+  {
+    vh::OwnSegments os;
+    json untrimmed = c["pdi"];
+    untrimmed["trim"] = json::object();
+    if (vh::own_segments(os, untrimmed) && os.max_seg >= 1 && s.chance(1, 8))
+      {
+        const int J = os.max_seg;
+        int a = int(s.range(-J, J)), b = int(s.range(-J, J));
+        if (a > b)
+          std::swap(a, b);
+        if (a == -b)
+          a = std::min(b, a + 1); // (symmetric ranges are what gen_pdi makes)
+        // known finding C12-A1 (domain audit): ProjDataInfoCylindricalArcCorr::get_bin starts its search for the segment at segment 0
+        // and indexes the ring-difference tables with it (ProjDataInfoCylindricalArcCorr.cxx:183-197): out-of-range read (debug:
+        // assertion) for arc-corrected data whose segment range does not contain 0.  Excluded by construction, exactly that class:
+        // arc-corrected AND 0 outside a..b -> the range is extended to contain 0.  Probe: known/C12/A1_*.json
+        // (repaired: the exclusion is off; the probe is the regression input replays/C12/fixed_A1_*.json)
+        if (A1_EXCLUDED && c["pdi"]["arccorr"].get<bool>() && (a > 0 || b < 0) && exclusions_on("A1"))
+          {
+            a = std::min(a, 0);
+            b = std::max(b, 0);
+            count_excluded("C12-A1 arc-corrected data with a segment range without segment 0 (range extended to segment 0)");
+          }
+        c["pdi"]["trim"] = { { "max_seg", b }, { "min_seg", a }, { "tang_cut", int(s.range(0, 2)) } };
+      }
+  }
   if (c["pdi"]["arccorr"].get<bool>())
     {
       // arc-corrected: random bin size and number of bins, kept inside the ring: get_LOR/get_tantheta assert |s| < R
@@ -1326,6 +1445,69 @@ fixed_cases(int tier)
             v.push_back(c);
         }
     }
+  // (domain audit) corners of the generator's new sub-domains, always run: 5 / 7 rings, segment ranges that are not symmetric or lack
+  // segment 0, arc-correction inputs with an asymmetric tangential range (also one not containing 0), signed rows, other sinograms
+  {
+    struct Corner
+    {
+      int ndet, rings, tof_poss, span, max_delta, mash, tang, tof_mash, min_seg, max_seg, lo_cut, hi_cut, sino_sel, variant;
+      bool arccorr, signed_rows;
+    };
+    const std::vector<Corner> corners = {
+      { 16, 5, 0, 1, 4, 1, 15, 0, 1, 3, 3, 0, 1, 0, false, true },   // 5 rings, segments 1..3; input range cut on the low side
+      { 16, 5, 0, 3, 3, 2, 14, 0, -1, 0, 0, 5, 2, 1, false, false }, // span 3, segments -1..0 (cut last segment); cut on the high side
+      { 12, 7, 5, 2, 6, 1, 11, 1, -3, 1, 7, 1, 1, 2, false, true },  // 7 rings, even span, TOF, segments -3..1; range 2..4 (no 0)
+      { 12, 7, 0, 5, 6, 1, 9, 0, 0, 1, 1, 6, 0, 0, true, true },     // arc-corrected, segments 0..1 (C12-A1: 0 must stay); range -3..-2 (no 0)
+      { 20, 5, 0, 1, 2, 5, 19, 0, -2, -1, 2, 3, 2, 2, false, false } // negative segments only, view mashing 5
+    };
+    int k = 0;
+    for (auto& co : corners)
+      {
+        json sc;
+        sc["type"] = -1;
+        sc["ndet"] = co.ndet;
+        sc["rings"] = co.rings;
+        sc["tr_cryst_per_block"] = 1;
+        sc["tr_blocks_per_bucket"] = 1;
+        sc["ax_cryst_per_block"] = co.rings;
+        sc["ax_blocks_per_bucket"] = 1;
+        sc["singles_units"] = 0;
+        sc["max_tang"] = co.ndet - 1;
+        sc["radius"] = 100.;
+        sc["doi"] = 3.;
+        sc["ring_spacing"] = 4.;
+        sc["bin_size"] = 3.;
+        sc["tilt"] = 0.;
+        sc["tof_poss"] = 0;
+        sc["geometry"] = "Cylindrical";
+        if (co.tof_poss > 0)
+          {
+            const double fov_d = 2. * vg::make_scanner(sc)->get_max_FOV_radius();
+            sc["tof_poss"] = co.tof_poss;
+            sc["tof_size"] = fov_d / 0.149896229 / co.tof_poss;
+            sc["tof_res"] = fov_d / 0.149896229 / 4;
+          }
+        json c;
+        c["scanner"] = sc;
+        c["pdi"] = { { "span", co.span },         { "max_delta", co.max_delta }, { "views", co.ndet / 2 / co.mash },
+                     { "tang", co.tang },         { "arccorr", co.arccorr },     { "tof_mash", co.tof_mash },
+                     { "trim", { { "max_seg", co.max_seg }, { "min_seg", co.min_seg }, { "tang_cut", 0 } } } };
+        PrngSrc ps(uint64_t(9001 + k));
+        c["arc"] = gen_arc(ps, co.tang);
+        c["arc"]["variant"] = co.variant;
+        c["arc"]["tang_lo_cut"] = co.lo_cut;
+        c["arc"]["tang_hi_cut"] = co.hi_cut;
+        c["arc"]["signed"] = co.signed_rows;
+        c["arc"]["sino_sel"] = co.sino_sel;
+        set_strides(c, budget);
+        v.push_back(c);
+        PrngSrc ph(uint64_t(9101 + k));
+        add_history(ph, c, vg::make_scanner(sc), 1, 1);
+        if (c.contains("hist"))
+          v.push_back(c);
+        ++k;
+      }
+  }
   return v;
 }
 
@@ -1351,6 +1533,14 @@ the_property()
   p.check = check;
   p.nontrivial = nontrivial;
   p.fixed_cases = fixed_cases;
-  p.known_signature = [](const json& c) { return vh::known_signature_H2(c); };
+  p.known_signature = [](const json& c) {
+    // C12-A1: arc-corrected data whose segment range (trim of the case) does not contain segment 0
+    static const char* one = std::getenv("C12_NO_EXCLUDE"); // (development aid, as in exclusions_on)
+    if (A1_EXCLUDED && std::getenv("VERIF_NO_EXCLUDE") == nullptr && !(one && std::string(one) == "A1") && c.contains("pdi") && c["pdi"].value("arccorr", false) && c["pdi"].contains("trim")
+        && c["pdi"]["trim"].contains("max_seg") && c["pdi"]["trim"].contains("min_seg")
+        && (c["pdi"]["trim"]["min_seg"].get<int>() > 0 || c["pdi"]["trim"]["max_seg"].get<int>() < 0))
+      return std::string("C12:A1:arccorr-get_bin:segment-range-without-segment-0");
+    return vh::known_signature_H2(c);
+  };
   return p;
 }
